@@ -9,7 +9,7 @@ from harness.props import c03
 RULE = ("every transform-capable class (single, cross, multi, all rotators) x alpha grid x PCA on/off (int / 'all') x rotation power 1..3 x "
         "normalized on/off x preprocessing flags x input structure (DataArray, Dataset, list, 2 sample dims, sample MultiIndex) x NaN rows/"
         "columns; white-noise as well as structured data so that rotations re-sort and flip signs; distinct by the configuration tuple")
-STRUCTS = ["DA", "DA", "DS", "LIST", "2s", "MI", "NaN"]
+STRUCTS = ["DA", "DA", "DS", "LIST", "2s", "MI", "NaN", "2sNaN", "MINaN"]
 
 
 def cases(seed, tier, broken=()):
@@ -61,6 +61,12 @@ def build(case):
             return [A, (A * 0.5 + 2.0).isel(lon=slice(0, 2)).rename("w")]
         if st == "MI":
             return A.stack(s=("time", "lat"))
+        if st in ("2sNaN", "MINaN"):
+            # two sample dimensions (or a sample MultiIndex) AND entirely missing samples: (time, lat) pairs without any value
+            B = A.copy()
+            B.values[3, 1, :] = np.nan
+            B.values[17, 0, :] = np.nan
+            return B.stack(s=("time", "lat")) if st == "MINaN" else B
         if st == "NaN":
             B = A.copy()
             B.values[3] = np.nan
@@ -69,9 +75,9 @@ def build(case):
             return B
         return A
 
-    if st == "2s":
+    if st in ("2s", "2sNaN"):
         dim = ("time", "lat")
-    if st == "MI":
+    if st in ("MI", "MINaN"):
         dim = "s"
     if zoo.takes_two(cls):
         if cls == "multi.CCA" and st in ("LIST",):
@@ -85,19 +91,19 @@ def model_cfg(case):
     b = zoo.base_of(cls)
     k = case["k"]
     if b in zoo.SINGLE:
-        cfg = {"n_modes": k, "solver": "full", "standardize": case["standardize"], "use_coslat": case["use_coslat"] and case["struct"] not in ("2s", "MI")}
+        cfg = {"n_modes": k, "solver": "full", "standardize": case["standardize"], "use_coslat": case["use_coslat"] and case["struct"] not in ("2s", "MI", "2sNaN", "MINaN")}
         if b == "POP":
             cfg["n_pca_modes"] = max(k, 4)
             cfg["n_modes"] = min(k, cfg["n_pca_modes"])
         if b == "SparsePCA":
             cfg["alpha"] = 1e-3
     elif b == "multi.CCA":
-        cfg = {"n_modes": min(k, 3), "pca": case["use_pca"], "use_coslat": case["use_coslat"] and case["struct"] not in ("2s", "MI")}
+        cfg = {"n_modes": min(k, 3), "pca": case["use_pca"], "use_coslat": case["use_coslat"] and case["struct"] not in ("2s", "MI", "2sNaN", "MINaN")}
         if case["use_pca"]:
             cfg["variance_fraction"] = 0.999
             cfg["init_pca_modes"] = 1.0
     else:
-        cfg = {"n_modes": min(k, 6), "solver": "full", "standardize": case["standardize"], "use_coslat": case["use_coslat"] and case["struct"] not in ("2s", "MI"),
+        cfg = {"n_modes": min(k, 6), "solver": "full", "standardize": case["standardize"], "use_coslat": case["use_coslat"] and case["struct"] not in ("2s", "MI", "2sNaN", "MINaN"),
                "use_pca": case["use_pca"], "n_pca_modes": "all" if case["n_pca"] == "all" else 6}
         if b.endswith("CPCCA"):
             cfg["alpha"] = case["alpha"]
